@@ -10,8 +10,14 @@ from common import ModelError, R, cfl, fl, max_rel_err
 from common import wiring_pre_build as pre_build  # noqa: E402,F401
 
 LEAN_MODULES = ["PyomaVerif.Props.C04", "PyomaVerif.Mutants.C04", "PyomaVerif.Props.WiringRun", "PyomaVerif.Props.C04C13",
-                "PyomaVerif.Props.C04C06"]
+                "PyomaVerif.Props.C04C06", "PyomaVerif.Props.C04Inv"]
 THEOREMS = [
+    # depth round: the driver's inverse gaussInv, verified as written, satisfies InvContract (Props/C04Inv.lean)
+    "PV.C04.C04_gaussInv_sound",
+    "PV.C04.C04_gaussInv_complete",
+    "PV.C04.C04_gaussInv_none_iff",
+    "PV.C04.C04_gaussInv_contract",
+    "PV.C04.C04_identical_refs_checked",
     # C04 o C06 (o C13): multi-setup FDD end to end (Props/C04C06.lean)
     "PV.C04C06.sdEst_rank_one_entry",
     "PV.C04C06.sdEst_superposition",
@@ -69,7 +75,8 @@ RULE = (
 )
 EXTRA_TRUSTED = [
     "np.linalg.inv returns a left inverse of an invertible block (the model's `inv` parameter; the driver's exact "
-    "stand-in re-checks W*G = 1 on every matrix)",
+    "stand-in gaussInv is proved sound and complete over any field - C04_gaussInv_contract - and additionally re-checks "
+    "W*G = 1 on every matrix; compared with np.linalg.inv at 1e-12 in stream np.linalg.inv[stand-in])",
     "fdd.SD_est is the estimator parameter `sd` (its pairing/bilinearity is C13's subject; the oracle exercises it here)",
 ]
 ASSUMPTIONS = [
